@@ -5,7 +5,6 @@ package govc
 import (
 	"fmt"
 	"go/types"
-	"path/filepath"
 	"sort"
 	"strings"
 
@@ -102,7 +101,9 @@ type Exec struct {
 	mapLenKeys     map[string]bool
 	callpreUsed    map[string]bool
 	coverBlocks    bool
-	covered        map[*ssa.BasicBlock]bool
+	coverPCs       map[*ssa.BasicBlock][]*Term
+	coverOrder     []*ssa.BasicBlock
+	autoAcq        bool
 	inFuncDispatch bool
 	givenVals      map[string]*Term
 	funcVals       []VFunc // function values (closures) that were stored in memory, by identity funcIDBase+index
@@ -182,7 +183,8 @@ func (x *Exec) funcID(v VFunc) *Term {
 }
 
 func (x *Exec) reset() {
-	x.covered = nil
+	x.coverPCs = nil
+	x.coverOrder = nil
 	x.funcVals = nil
 	x.givenVals = nil
 	x.Sh.FuncID = x.funcID
@@ -1308,21 +1310,15 @@ func (x *Exec) runBlocks(fr *Frame, order []*ssa.BasicBlock, start *ssa.BasicBlo
 		// cover probe (thorough tier): is this block of the unit reachable under the contract's preconditions
 		// and everything assumed on the way? An unreachable block means the obligations behind it are vacuous:
 		// reported in the evidence for review (dead code and excluded error paths are legitimately unreachable).
-		if x.coverBlocks && isUnit && !x.dry && !isFalse(in.PC) && !x.covered[b] {
-			if x.covered == nil {
-				x.covered = map[*ssa.BasicBlock]bool{}
+		if x.coverBlocks && isUnit && !x.dry && !isFalse(in.PC) {
+			// a block may be executed several times (tail duplication): it is reachable if any of its visits is
+			if x.coverPCs == nil {
+				x.coverPCs = map[*ssa.BasicBlock][]*Term{}
 			}
-			x.covered[b] = true
-			pos := ""
-			for _, ins := range b.Instrs {
-				if ins.Pos().IsValid() && x.W.Fset != nil {
-					pp := x.W.Fset.Position(ins.Pos())
-					pos = fmt.Sprintf("%s:%d", filepath.Base(pp.Filename), pp.Line)
-					break
-				}
+			if _, seen := x.coverPCs[b]; !seen {
+				x.coverOrder = append(x.coverOrder, b)
 			}
-			x.obligs = append(x.obligs, &Oblig{Name: fmt.Sprintf("%s/cover[b%d %s %s]", x.unitName, b.Index, b.Comment, pos), Kind: "cover", Unit: x.unitName,
-				Goal: x.C.Not(in.PC), NAssume: len(x.assumes), Self: -1, Src: "block is reachable (expected: sat)"})
+			x.coverPCs[b] = append(x.coverPCs[b], in.PC)
 		}
 		if isUnit && li == nil && b != start {
 			if x.splitReturn(fr, b, edge, rets) {
